@@ -13,19 +13,24 @@
 (*           (outcome "hard" of Defer.tla); otherwise the subgraph answer of      *)
 (*           exchange faultAt is replaced by the named fault (outcome "bubble"     *)
 (*           or partial data)                                                   *)
+(*   cut     "cancel": the client disconnects - the Flush that would commit frame  *)
+(*           cutAt fails, the request context is cancelled, every later writer     *)
+(*           call fails                                                          *)
 (* Every combination is an initial state; there are no transitions.              *)
 (***************************************************************************)
 EXTENDS Integers, Sequences, FiniteSets, TLC, Json
 CONSTANT K
-VARIABLES prio, park, parkAt, fault, faultAt
-svars == <<prio, park, parkAt, fault, faultAt>>
+VARIABLES prio, park, parkAt, fault, faultAt, cut, cutAt
+svars == <<prio, park, parkAt, fault, faultAt, cut, cutAt>>
 Perms == {p \in [1..K -> 1..K] : \A i, j \in 1..K : i # j => p[i] # p[j]}
 Faults == {"hard", "Transport", "ErrorsNoData", "DataNull", "Non2xxNonJSON"}
 SchedInit ==
   /\ prio \in Perms
-  /\ \/ park = "" /\ parkAt = 0 /\ fault = "" /\ faultAt = 0
-     \/ park \in {"w", "f"} /\ parkAt \in 1..K /\ fault = "" /\ faultAt = 0
-     \/ park = "" /\ parkAt = 0 /\ fault \in Faults /\ faultAt \in 1..K
+  /\ \/ park = "" /\ parkAt = 0 /\ fault = "" /\ faultAt = 0 /\ cut = "" /\ cutAt = 0
+     \/ park \in {"w", "f"} /\ parkAt \in 1..K /\ fault = "" /\ faultAt = 0 /\ cut = "" /\ cutAt = 0
+     \/ park = "" /\ parkAt = 0 /\ fault \in Faults /\ faultAt \in 1..K /\ cut = "" /\ cutAt = 0
+     \* client disconnect (Disconnect of Defer.tla): the Flush of frame cutAt fails and the request context is cancelled
+     \/ park = "" /\ parkAt = 0 /\ fault = "" /\ faultAt = 0 /\ cut = "cancel" /\ cutAt \in 0..K
 SchedSpec == SchedInit /\ [][UNCHANGED svars]_svars
-Emit == PrintT(ToJson([prio |-> prio, park |-> park, parkAt |-> parkAt, fault |-> fault, faultAt |-> faultAt]))
+Emit == PrintT(ToJson([prio |-> prio, park |-> park, parkAt |-> parkAt, fault |-> fault, faultAt |-> faultAt, cut |-> cut, cutAt |-> cutAt]))
 =============================================================================
